@@ -48,17 +48,20 @@ static void pf(double d) {
 
 /* ---- recorder for ref_split_pass trial vertices ------------------------------------------------------ */
 static int spy_on = 0;
+static int spy_count = 0;
+static REF_GRID spy_grid = NULL;
 static REF_STATUS h_spy_interpolate_edge(REF_NODE ref_node, REF_INT node0, REF_INT node1, REF_DBL node1_weight,
                                          REF_INT new_node) {
   REF_STATUS st = ref_node_interpolate_edge(ref_node, node0, node1, node1_weight, new_node);
   if (spy_on && REF_SUCCESS == st) {
     /* the raw weight, recomputed with the statements of ref_split_pass (twod/surf branch) */
-    REF_DBL ratio01, ratio0, ratio1, raw = 0.5;
+    REF_DBL ratio01 = 0, ratio0 = 0, ratio1 = 0, raw = 0.5;
     int i;
-    if (REF_SUCCESS == ref_node_ratio(ref_node, node0, node1, &ratio01) &&
+    int flat = (NULL != spy_grid) && (ref_grid_twod(spy_grid) || ref_grid_surf(spy_grid));
+    if (!flat || (REF_SUCCESS == ref_node_ratio(ref_node, node0, node1, &ratio01) &&
         REF_SUCCESS == ref_node_ratio_node0(ref_node, node0, node1, &ratio0) &&
-        REF_SUCCESS == ref_node_ratio_node0(ref_node, node1, node0, &ratio1)) {
-      if (ref_math_divisible(ratio0, ratio1 + ratio0)) {
+        REF_SUCCESS == ref_node_ratio_node0(ref_node, node1, node0, &ratio1))) {
+      if (flat && ref_math_divisible(ratio0, ratio1 + ratio0)) {
         if (0.25 < ratio0 / (ratio0 + ratio1) && ratio0 / (ratio0 + ratio1) < 0.75) {
           raw = 1.0 - ratio0 / (ratio0 + ratio1);
         } else {
@@ -69,6 +72,7 @@ static REF_STATUS h_spy_interpolate_edge(REF_NODE ref_node, REF_INT node0, REF_I
           }
         }
       }
+      spy_count++;
       fputs("trial", out);
       pf(raw);
       pf(node1_weight);
@@ -201,7 +205,7 @@ int main(void) {
     }
     n0 = (REF_INT)I[0];
     n1 = (REF_INT)I[1];
-    if (I[0] >= NN || I[1] >= NN || I[2] >= NN + 2 || I[3] >= NN + 2) {
+    if (I[0] >= NN || I[1] >= NN || (!is_validate && (I[2] >= NN + 2 || I[3] >= NN + 2))) {
       fputs(is_validate ? "skip bad-op\n" : "bad-op\n", out);
     } else if (0 == strcmp(op, "cgeom")) {
       if (I[2] > 1 || I[3] > 1) {
@@ -311,9 +315,31 @@ int main(void) {
         fputc('\n', out);
       }
     } else if (0 == strcmp(op, "vsplit")) {
-      /* vsplit <x> i0 ...: i2 = 1: twod grid.  metric: node k gets h = W^(k mod 3 - 1)-ish sizes from the z
-         coordinate slot? no: sizes are carried in the op: see below */
-      fputs("skip unused\n", out);
+      /* vsplit <x> i0 i1 twod h0pct w ...: the REAL ref_split_pass on the grid; node k carries the isotropic
+         metric of size h = (h0pct/100) * w^((k mod 3) - 1); every ref_node_interpolate_edge call made by the pass
+         is recorded by the spy as a `trial` line; this op's own line is the summary `skip <status> <ntrials>` */
+      REF_NODE ref_node = ref_grid_node(ref_grid);
+      REF_INT node;
+      double h0 = (double)I[3] / 100.0;
+      if (!(W > 0.0) || !(W < 1.0e6) || I[3] < 1 || I[2] > 1) {
+        fputs("skip bad-op\n", out);
+      } else {
+        ref_grid_twod(ref_grid) = (REF_BOOL)I[2];
+        each_ref_node_valid_node(ref_node, node) {
+          double h = h0 * pow(W, (double)((node % 3) - 1));
+          if (REF_SUCCESS != ref_node_metric_form(ref_node, node, 1.0 / (h * h), 0, 0, 1.0 / (h * h), 0,
+                                                  I[2] ? 1.0 : 1.0 / (h * h)))
+            exit(7);
+        }
+        if (REF_SUCCESS != ref_node_initialize_n_global(ref_node, NN)) exit(11);
+        spy_on = 1;
+        spy_count = 0;
+        spy_grid = ref_grid;
+        st = ref_split_pass(ref_grid);
+        spy_on = 0;
+        spy_grid = NULL;
+        fprintf(out, "skip %s %d\n", h_status(st), spy_count);
+      }
     } else {
       fputs("bad-op\n", out);
     }
